@@ -51,6 +51,18 @@ Definition number_tiles_ok := tiles number_of_u16_segments 0 65536.
 Definition bad_number_of_digits :=
   filter (fun p => negb (tiles (snd p) 0 (10 ^ N.of_nat (fst p)) && forallb number_seg_ok (snd p))) number_of_digits_segments.
 Definition digit_lengths_ok := list_eq_dec Nat.eq_dec (map fst number_of_digits_segments) [1; 2; 3; 4; 5]%nat.
+(* String -> Number on arbitrary strings: an optional '+', then one or more ASCII digits, the value below 1000 (the
+   grammar of u16::from_str followed by the range check); the value is computed without any bound *)
+Definition is_digit_cp (c : N) : bool := (48 <=? c)%N && (c <=? 57)%N.
+Definition digits_value (s : list N) : N := fold_left (fun acc c => acc * 10 + (c - 48))%N s 0%N.
+Definition number_string_spec (s : list N) : option N :=
+  let body := match s with 43%N :: t => t | _ => s end in
+  match body with
+  | [] => None
+  | _ => if forallb is_digit_cp body then (let v := digits_value body in if (v <? 1000)%N then Some v else None) else None
+  end.
+Definition bad_number_of_string :=
+  filter (fun p => negb match snd p with Some r => opt_eqb N.eqb r (number_string_spec (fst p)) | None => false end) number_of_string_probes.
 Definition up_down (k : bond_kind) : bond_kind := match name_bond_kind k with "Up" => BK_Down | "Down" => BK_Up | _ => k end.
 Definition order_spec (k : bond_kind) : N := match name_bond_kind k with "Double" => 2 | "Triple" => 3 | "Quadruple" => 4 | _ => 1 end.
 Definition bad_reverse := filter (fun k => negb (bond_kind_eqb (reverse_bond_kind (reverse_bond_kind k)) k && bond_kind_eqb (reverse_bond_kind k) (up_down k))) all_bond_kind.
